@@ -385,7 +385,8 @@ check("C17",
            "thorough: noise before every PAIR of steps}. Oracle: printed bytes identical across all "
            "histories; three further fresh printers on the same graph (two of them constructed in storage filled with ones) reproduce them; fingerprint of every node the program built "
            "unchanged by printing; with print_locations on the text is the off-text with only the F<file>:<line>[:<col>] tokens of "
-           "located nodes inserted (each shows, none invented), off => none. distinct_nontrivial = programs printed to completion.",
+           "located nodes inserted (each shows, none invented), off => none; every program also with all located nodes on ONE line of one file "
+           "(columns differ) and with all at ONE identical position: each token appears at least as often as nodes carry it. distinct_nontrivial = programs printed to completion.",
       text="Every program of the bounded fragment x every construction history of the deviation-bounded set is built on the "
            "real factories and printed by the real printer; outputs are compared byte for byte.",
       note="Programs the printer refuses with std::logic_error under the plain history are counted, not compared (C18 decides "
